@@ -664,5 +664,5 @@ func parseDefine(s string) (*Define, error) {
 
 // callees named in lastresult(F) / lastarg(F, i) / atlast(F, e): the engine keeps a ghost record of
 // their most recent call on every path
-var watchedRe = regexp.MustCompile(`(lastresult|lastarg|atlast)\(\s*([A-Za-z_][A-Za-z0-9_]*)`)
+var watchedRe = regexp.MustCompile(`(lastresult|lastarg|atlast|lastcalled)\(\s*([A-Za-z_][A-Za-z0-9_]*)`)
 var watchedCallees = map[string]bool{}
